@@ -474,6 +474,16 @@ func main() {
 	}
 	run.CountN("family:exhaustive-3-siblings", nEx)
 	run.Note("exhaustive family: %d of %d cases (modes^3 x release orders; stride %d selected by the seed)", nEx, len(ex), stride)
+	// apifu's built-in node / nodes fields
+	nm := nodeMatrix(procs)
+	for _, c := range nm {
+		if pa.enough() {
+			break
+		}
+		c := c
+		pa.record(c, pa.exec(&c), true)
+	}
+	run.CountN("family:node-matrix", len(nm))
 	// connection matrix (exhaustive) and random connection family
 	cm := connMatrix(procs)
 	for _, c := range cm {
@@ -507,7 +517,11 @@ func main() {
 	// random family
 	nRand := run.Scale(6000, 120000)
 	for i := 0; i < nRand; i++ {
-		c := randomCase(rnd.Fork())
+		cr := rnd.Fork()
+		c := randomCase(cr)
+		if cr.Chance(1, 4) {
+			addNodeLookups(cr, &c)
+		}
 		pa.record(c, pa.exec(&c), true)
 		if i < 3 {
 			run.Sample(c)
@@ -520,7 +534,11 @@ func main() {
 	// nested-waves family
 	nNest := run.Scale(800, 15000)
 	for i := 0; i < nNest && !pa.enough(); i++ {
-		c := nestedCase(rnd.Fork())
+		cr := rnd.Fork()
+		c := nestedCase(cr)
+		if cr.Chance(1, 4) {
+			addNodeLookups(cr, &c)
+		}
 		pa.record(c, pa.exec(&c), true)
 		if i < 1 {
 			run.Sample(c)
